@@ -1,26 +1,65 @@
 //go:build verif
 
 // Added to package controller at check time through `go -overlay` (never committed to /repo).
-// A channel based mutex with the same Lock/Unlock contract as sync.Mutex; unlike sync.Mutex its
-// waiters are "durably blocked" for testing/synctest, so a bubble's fake clock keeps running
-// while one controller waits for another one's initialisation to finish.
+// verifMutex stands in for every sync.Mutex of the package: a channel based mutex with the same contract
+// (usable zero value, Lock / Unlock / TryLock, a sync.Locker). Unlike sync.Mutex its waiters are "durably
+// blocked" for testing/synctest, so a bubble's fake clock keeps running while one controller waits for
+// another one's initialisation to finish.
 package controller
 
-type verifChanMutex struct{ ch chan struct{} }
+import (
+	"sync"
+	"sync/atomic"
+)
 
-func newVerifChanMutex() *verifChanMutex { return &verifChanMutex{ch: make(chan struct{}, 1)} }
-func (m *verifChanMutex) Lock()          { m.ch <- struct{}{} }
-func (m *verifChanMutex) Unlock()        { <-m.ch }
-func (m *verifChanMutex) TryLock() bool {
+type verifMutex struct{ p atomic.Pointer[chan struct{}] }
+
+var verifMutexes struct {
+	mu   sync.Mutex
+	list []*verifMutex
+}
+
+func (m *verifMutex) ch() chan struct{} {
+	if c := m.p.Load(); c != nil {
+		return *c
+	}
+	c := make(chan struct{}, 1)
+	if m.p.CompareAndSwap(nil, &c) {
+		verifMutexes.mu.Lock()
+		verifMutexes.list = append(verifMutexes.list, m)
+		verifMutexes.mu.Unlock()
+		return c
+	}
+	return *m.p.Load()
+}
+
+func (m *verifMutex) Lock() { m.ch() <- struct{}{} }
+
+func (m *verifMutex) Unlock() {
 	select {
-	case m.ch <- struct{}{}:
+	case <-m.ch():
+	default:
+		panic("sync: unlock of unlocked mutex")
+	}
+}
+
+func (m *verifMutex) TryLock() bool {
+	select {
+	case m.ch() <- struct{}{}:
 		return true
 	default:
 		return false
 	}
 }
 
-// VerifResetInitMutex replaces the global initialisation mutex by a fresh one. Channels are
-// only durably blocking inside the synctest bubble that created them, so every bubble that
-// exercises the non-parallel initialisation creates its own.
-func VerifResetInitMutex() { InitializationSequenceMutex = newVerifChanMutex() }
+// VerifResetInitMutex forgets the channels of all mutexes used so far: channels are only durably
+// blocking inside the synctest bubble that created them, so every bubble starts with fresh ones
+// (no controller of an earlier bubble is alive at that point).
+func VerifResetInitMutex() {
+	verifMutexes.mu.Lock()
+	for _, m := range verifMutexes.list {
+		m.p.Store(nil)
+	}
+	verifMutexes.list = nil
+	verifMutexes.mu.Unlock()
+}
